@@ -368,6 +368,31 @@ def rule_handwritten(prog, res):
         ok = okt and any(c and c.endswith("Df88591String::<N>::push_char") for c in calls) and any(c == "core::str::<impl str>::chars" for c in calls)
         if not ok:
             ok = _delegates_to_from(v, va, "<util::Df88591String<N> as core::convert::From<&str>>::from")
+        if not ok and not v.loops():
+            # Ok(Df88591String(v.chars().take(N).map(from_char).collect::<ArrayVec<[u8; N]>>())): tinyvec's FromIterator pushes each item in order
+            # (trusted with the rest of tinyvec), take(N) keeps it within the capacity, the map is the character map X-map judges
+            rets = v.return_blocks()
+            rv_ = va.end_val(0, rets[0]) if len(rets) == 1 else None
+            x_ = rv_
+            chain = []
+            if x_ is not None and x_.op == "agg" and x_.args[2] == "Ok" and x_.args[3]:
+                x_ = x_.args[3][0]
+                if x_.op == "agg" and x_.args[0] == "util::Df88591String" and len(x_.args[3]) == 1:
+                    x_ = x_.args[3][0]
+                    while x_.op == "call" and x_.args[1]:
+                        chain.append((x_.args[0], x_.args[1][1:]))
+                        x_ = x_.args[1][0]
+                    while x_.op in ("ref", "mem", "memval"):
+                        x_ = x_.args[0]
+            names_ = [c_ for c_, a_ in chain]
+            if names_ == ["core::iter::Iterator::collect", "core::iter::Iterator::map", "core::iter::Iterator::take", "core::str::<impl str>::chars"] \
+                    and x_ is not None and x_.op == "arg" and x_.args[1] == 2:
+                f_ = chain[1][1][0] if chain[1][1] else None
+                n_ = chain[2][1][0] if chain[2][1] else None
+                okf = f_ is not None and f_.op == "fn" and f_.args[0].endswith("Df88591StringChars::from_char")
+                okn = n_ is not None and n_.op in ("opaque_const", "const") and ("N" in str(n_.args) or n_.op == "const")
+                ok = okf and okn
+                takes = [("collect form", chain)]
         res.ob("Z-vis", "Df88591String visitor | reads chars().take(N) and pushes each (N characters always fit N bytes of Latin-1)", ok, str(takes), v.loc,
                sample=[show(a, va.names) for b, a in takes])
     v = next((g for p, g in prog.fns.items() if "ArrayStringVisitor" in p and p.endswith("::visit_str")), None)
